@@ -41,10 +41,14 @@ def _sort_key_uses_str(ctx):
   """Anchor: Node.__lt__ compares _ToTuple(), which applies str() to every
   field of the node (so the rendering of the children is the sort key)."""
   mod = get_module(ctx, NODE)
-  meths = mod.methods("Node")
-  lt, tt = meths.get("__lt__"), meths.get("_ToTuple")
-  if lt is None or tt is None:
-    raise AnalysisError("node.py: Node.__lt__ / Node._ToTuple not found")
+  mod.cls("Node")
+  # own methods or those of a mixin / base class defined in node.py (local MRO;
+  # nothing is taken from behind a base that is not defined in the file)
+  found = [U.resolve_method(mod, "Node", m) for m in ("__lt__", "_ToTuple")]
+  if None in found:
+    raise AnalysisError("node.py: Node.__lt__ / Node._ToTuple not found (also "
+                        "not in a base class defined in node.py)")
+  lt, tt = found[0][1], found[1][1]
   if not any(isinstance(n, ast.Attribute) and n.attr == "_ToTuple"
              for n in ast.walk(lt)):
     raise AnalysisError("node.py: Node.__lt__ no longer compares _ToTuple()")
@@ -66,12 +70,25 @@ def _method(sch, cname, mname):
   return None
 
 
-def _self_fields(fn, fields, also=()):
-  """Struct fields read as <first param>.F (or <also>.F) in fn."""
+def _self_fields(sch, cname, fn, fields, also=(), _seen=None):
+  """Struct fields read as <first param>.F (or <also>.F) in fn, also through
+  the methods / properties of the class it reaches (`self._Members()`)."""
+  _seen = set() if _seen is None else _seen
+  if fn in _seen:
+    return set()
+  _seen.add(fn)
   names = {fn.args.args[0].arg, *also} if fn.args.args else set(also)
-  return {n.attr for n in ast.walk(fn) if isinstance(n, ast.Attribute)
-          and isinstance(n.value, ast.Name) and n.value.id in names
-          and n.attr in fields}
+  out = set()
+  for n in ast.walk(fn):
+    if isinstance(n, ast.Attribute) and isinstance(n.value, ast.Name) and \
+        n.value.id in names:
+      if n.attr in fields:
+        out.add(n.attr)
+      else:
+        m = _method(sch, cname, n.attr)
+        if m is not None:
+          out |= _self_fields(sch, cname, m, fields, (), _seen)
+  return out
 
 
 def equality_blind_rendered_fields(ctx):
@@ -87,7 +104,7 @@ def equality_blind_rendered_fields(ctx):
       continue      # generated equality compares every field / identity
     fields = list(sch.fields(c))
     other = [a.arg for a in eq.args.args[1:2]]
-    compared = _self_fields(eq, fields, other)
+    compared = _self_fields(sch, c, eq, fields, other)
     rendered, how = set(), {}
     for r in _RENDER:
       m = _method(sch, c, r)
@@ -97,7 +114,7 @@ def equality_blind_rendered_fields(ctx):
         rendered |= set(fields)
         how[r] = "generated: every field"
       else:
-        got = _self_fields(m, fields)
+        got = _self_fields(sch, c, m, fields)
         rendered |= got
         how[r] = sorted(got)
     for f in fields:
@@ -356,7 +373,7 @@ VARIANTS = [
                 "  tree.Visit(visitors.ClearClassPointers())\n"
                 "  tree.Visit(ClearLookupCache())\n"
                 "  return tree\n\n\n" + _SER_DEF)]},
-    {"name": "renaming-visitor-that-copies-pointers-after-clearing", "rule": "R12.7",
+    {"name": "pointer-setting-visitor-between-clearing-and-sorting", "rule": "R12.7",
      "file": _S, "expect": "fire",
      "old": _PAIR,
      "new": "  ast.Visit(visitors.ClearClassPointers())\n"
